@@ -17,10 +17,10 @@ META = {
 }
 
 
-def _mk_layout(shape):
+def _mk_layout(shape, lo=0, hi=None):
     def T_layout(w1: int, w2: int, w3: int, w4: int, blank_at: int, blanks: int, drop_end: bool, quote_words: bool, mark_alias: bool) -> int:
         """
-        pre: 0 < w1 < w2 < w3 < w4 <= 40 and 0 <= blank_at <= BMAX and 0 <= blanks <= 1
+        pre: 0 < w1 < w2 < w3 < w4 <= 40 and BLO <= blank_at <= BMAX and 0 <= blanks <= 1 and (blanks == 1 or blank_at == BLO)
         post: _ != 0
         """
         from crosshair.core import realize
@@ -29,7 +29,9 @@ def _mk_layout(shape):
         from octave_mcp.core.emitter import emit
         from octave_mcp.core.parser import Parser
 
-        blank_at, blanks, drop_end, quote_words, mark_alias = realize(blank_at), realize(blanks), realize(drop_end), realize(quote_words), realize(mark_alias)
+        from vf.ob import pick, pickb
+
+        blank_at, blanks, drop_end, quote_words, mark_alias = pick(blank_at, BHI - BLO + 1, BLO), pick(blanks, 2), pickb(drop_end), pickb(quote_words), pickb(mark_alias)
         T = lx.TokenType
         with NoTracing():
             model, text, toks, sites, fm, _ = dm.canonical_tokens(shape)
@@ -66,7 +68,9 @@ def _mk_layout(shape):
         doc.raw_frontmatter = fm
         return HELD if emit(doc) == text else VIOL
 
-    T_layout.__doc__ = T_layout.__doc__.replace("BMAX", "28" if shape == "deep" else "70")
+    full = 28 if shape == "deep" else 70
+    BLO, BHI = lo, (full if hi is None else hi)
+    T_layout.__doc__ = T_layout.__doc__.replace("BMAX", str(BHI)).replace("BLO", str(BLO))
     return T_layout
 
 
@@ -221,5 +225,6 @@ def obligations(tier):
         for k in range(4)
     ]
     for shape in dm.SHAPES:
-        obs.append(xh_ob(PROP, f"T.token-level-layout-freedoms[{shape}]", _mk_layout(shape), timeout=3000 if th else 1200, bound=f"shape '{shape}': indentation width per depth any integers 0 < w1 < w2 < w3 < w4 <= 40 (symbolic), 0 or 2 extra blank lines after any one line (symbolic position), END present/absent, plain words quoted/bare, alias marks on operators", functions=pf))
+        for lo, hi in ([(0, 14), (15, 28)] if shape == "deep" else [(0, 13), (14, 27), (28, 41), (42, 55), (56, 70)]):
+            obs.append(xh_ob(PROP, f"T.token-level-layout-freedoms[{shape},blank line after line {lo}-{hi}]", _mk_layout(shape, lo, hi), timeout=3000 if th else 1200, bound=f"shape '{shape}': indentation width per depth any integers 0 < w1 < w2 < w3 < w4 <= 40 (symbolic), 0 or 2 extra blank lines after any one line (symbolic position), END present/absent, plain words quoted/bare, alias marks on operators", functions=pf))
     return select(obs, tier)
